@@ -120,6 +120,26 @@ func (c *MemConn) FailNextWrites(n int, err error) {
 	c.mu.Unlock()
 }
 
+// FailNextWritesAfterSend makes the next n WriteTo calls hand the datagram to the network and THEN report err
+// (with the full length): a transport that fails after forwarding, e.g. a wrapper whose deadline bookkeeping
+// fails after the send, or WriteTo returning n > 0 together with an error. The error does not prove that the
+// datagram did not leave.
+func (c *MemConn) FailNextWritesAfterSend(n int, err error) {
+	c.mu.Lock()
+	c.lateFailN, c.lateFailErr = n, err
+	c.mu.Unlock()
+}
+
+func (c *MemConn) takeLateFail() error {
+	c.mu.Lock()
+	defer c.mu.Unlock()
+	if c.lateFailN > 0 {
+		c.lateFailN--
+		return c.lateFailErr
+	}
+	return nil
+}
+
 func (c *MemConn) takeFail() error {
 	c.mu.Lock()
 	defer c.mu.Unlock()
